@@ -615,7 +615,7 @@ impl Scenario for C03TokenSoups {
             text.push_str("ASAP2_VERSION 1 71 /begin PROJECT p \"\" /begin MODULE m \"\" ");
         }
         // the small alphabet of the property statement half of the time, and a per-run separator probability
-        let hot: [&str; 12] = ["/begin", "/end", "/include", "A2ML", "IF_DATA", "\"", "\"\"", "/*", "//", "1", "x", "\n"];
+        let hot: [&str; 14] = ["/begin", "/end", "/include", "A2ML", "IF_DATA", "\"", "\"\"", "/*", "//", "1", "x", "\n", "é", "\"ü"];
         let use_hot = cx.tape.chance(1, 2);
         let sep16 = *cx.tape.pick(&[4u64, 8, 12, 16]);
         if cx.tape.chance(1, 3) {
